@@ -4,8 +4,10 @@ import (
 	"go/constant"
 	"go/token"
 	"go/types"
+	"strings"
 
 	"golang.org/x/tools/go/ssa"
+	"golang.org/x/tools/go/ssa/ssautil"
 )
 
 // Cond is a branch condition known to hold (Truth) at some program point.
@@ -440,4 +442,79 @@ func backPaths(b, stop *ssa.BasicBlock, max int) [][]Cond {
 		return [][]Cond{pathConds(b)}
 	}
 	return out
+}
+
+// funcAliases: package-level variables of function type in the module that are stored exactly once - by their package
+// initialiser, with a named function - and are otherwise only loaded (package spec re-exports internal/decode and
+// internal/encode this way: `DecodeInt32 = decode.DecodeInt32`; generated code calls through these variables).
+var funcAliasMemo map[*ssa.Global]*ssa.Function
+
+func (c *Ctx) funcAliases() map[*ssa.Global]*ssa.Function {
+	if funcAliasMemo != nil {
+		return funcAliasMemo
+	}
+	stores := map[*ssa.Global][]ssa.Value{}
+	bad := map[*ssa.Global]bool{}
+	for fn := range ssautil.AllFunctions(c.Prog) {
+		g := fn
+		if g.Origin() != nil {
+			g = g.Origin()
+		}
+		if g.Pkg == nil || !strings.HasPrefix(g.Pkg.Pkg.Path(), Mod) {
+			continue
+		}
+		for _, b := range fn.Blocks {
+			for _, ins := range b.Instrs {
+				for _, op := range ins.Operands(nil) {
+					gl, ok := (*op).(*ssa.Global)
+					if !ok {
+						continue
+					}
+					if _, isFn := gl.Type().(*types.Pointer).Elem().Underlying().(*types.Signature); !isFn {
+						continue
+					}
+					switch x := ins.(type) {
+					case *ssa.Store:
+						if x.Addr == ssa.Value(gl) && fn.Name() == "init" && fn.Synthetic != "" {
+							stores[gl] = append(stores[gl], x.Val)
+						} else {
+							bad[gl] = true
+						}
+					case *ssa.UnOp:
+						if x.Op != token.MUL {
+							bad[gl] = true
+						}
+					default:
+						bad[gl] = true
+					}
+				}
+			}
+		}
+	}
+	funcAliasMemo = map[*ssa.Global]*ssa.Function{}
+	for gl, vs := range stores {
+		if bad[gl] || len(vs) != 1 {
+			continue
+		}
+		if f, ok := vs[0].(*ssa.Function); ok {
+			funcAliasMemo[gl] = f
+		}
+	}
+	return funcAliasMemo
+}
+
+// calleeOf: the statically known callee, looking through function-alias variables.
+func (c *Ctx) calleeOf(cc *ssa.CallCommon) *ssa.Function {
+	if f := cc.StaticCallee(); f != nil {
+		return f
+	}
+	if cc.IsInvoke() {
+		return nil
+	}
+	if ld, ok := cc.Value.(*ssa.UnOp); ok && ld.Op == token.MUL {
+		if gl, ok := ld.X.(*ssa.Global); ok {
+			return c.funcAliases()[gl]
+		}
+	}
+	return nil
 }
